@@ -29,6 +29,7 @@ import (
 	"github.com/ozontech/seq-db/frac/lids"
 	"github.com/ozontech/seq-db/frac/processor"
 	"github.com/ozontech/seq-db/frac/token"
+	"github.com/ozontech/seq-db/fracmanager"
 	"github.com/ozontech/seq-db/logger"
 	"github.com/ozontech/seq-db/parser"
 	"github.com/ozontech/seq-db/seq"
@@ -103,6 +104,10 @@ type corpus struct {
 
 const baseMID = 1_700_000_000_000
 
+// lateNow: wall clock of this process (ms); the `latedocs` shape places its documents relative to the creation time of
+// the fraction, which the code takes from the clock
+var lateNow = time.Now().UnixMilli()
+
 func genCorpus(shape string, rng *vh.RNG) *corpus {
 	c := &corpus{crosses: map[string]bool{}}
 	n, services, pods, words := 0, 4, 40, 12
@@ -126,6 +131,9 @@ func genCorpus(shape string, rng *vh.RNG) *corpus {
 		n = 3500
 		uniq = 12
 		c.crosses["tokens"] = true
+	case "latedocs": // late / backfilled documents: the sealed fraction gets a MIDs distribution bitmap (Info.IsIntersecting)
+		n = 120
+		c.crosses["dist"] = true
 	case "tinybulks": // every document is its own bulk: doc blocks of 48..70 bytes, several starting in one 64-byte window
 		n = 400
 		c.crosses["docblocks"] = true
@@ -215,6 +223,11 @@ func genCorpus(shape string, rng *vh.RNG) *corpus {
 			toks = append(toks, "ex:"+e)
 			extra = fmt.Sprintf(`,"ex":"%s"`, e)
 		}
+		if shape == "latedocs" { // groups 170, 165 and 30 minutes before now (a long empty stretch before the last one), each inside one minute
+			g := i * 3 / n
+			mid = uint64(lateNow) - uint64([]int{170, 165, 30}[g])*60000 + uint64(i%40)*700
+			rid = uint64(i) + 1
+		}
 		doc := fmt.Sprintf(`{"service":"%s","level":"%s","pod":"%s","size":%d,"message":"%s %s","n":%d%s}`, svc, lvl, pod, size, w1, w2, i, extra)
 		if shape == "tinybulks" {
 			switch i % 4 {
@@ -227,6 +240,10 @@ func genCorpus(shape string, rng *vh.RNG) *corpus {
 		c.docs[k] = docSpec{id: seq.ID{MID: seq.MID(mid), RID: seq.RID(rid)}, doc: []byte(doc), tokens: toks}
 	}
 	c.from, c.to = seq.MID(baseMID), seq.MID(uint64(baseMID)+uint64(n/3+1)*c.step)
+	if shape == "latedocs" {
+		c.from, c.to = seq.MID(uint64(lateNow)-175*60000), seq.MID(uint64(lateNow)-25*60000)
+		c.step = 60000
+	}
 	c.queries = []string{
 		"service:s1", "level:error", "pod:p07", "message:w3", "service:s0 AND level:warn", "service:s2 OR pod:p11",
 		"NOT level:info", "service:s1 AND NOT message:w2", "(service:s0 OR service:s3) AND level:error AND message:w1",
@@ -404,6 +421,24 @@ func buildRequests(c *corpus, rng *vh.RNG, quick bool) []request {
 			}
 		}
 	}
+	// windows of many sizes ending shortly after a group of late documents: between the bitmap byte of `from` and the
+	// byte of `to` lie 1..20 whole bytes and the documents sit in the first or the last ones
+	if c.crosses["dist"] {
+		for _, g := range []int{165, 30} {
+			gm := uint64(lateNow) - uint64(g)*60000
+			for k := 10; k <= 160; k += 3 {
+				for _, t := range []int{9, 13, 18} {
+					for qi, q := range []string{"_all_:*", "service:s1"} {
+						if (k+t+qi)%2 == 0 {
+							continue
+						}
+						p := processor.SearchParams{AST: mustParse(q), From: seq.MID(gm - uint64(k)*60000), To: seq.MID(gm + uint64(t)*60000), Limit: 1000, WithTotal: true, Order: seq.DocsOrder(k % 2)}
+						reqs = append(reqs, request{kind: "search", desc: fmt.Sprintf("search q=%q order=%d from=group(-%dmin)-%dmin to=+%dmin (late documents)", q, k%2, g, k, t), params: p})
+					}
+				}
+			}
+		}
+	}
 	// every stored id, in insertion order and in descending id order, each asked twice (cold then warm doc-block cache)
 	if c.crosses["docblocks"] {
 		var all []seq.ID
@@ -515,11 +550,40 @@ func answer(f frac.Fraction, r request) (res string) {
 			res = fmt.Sprintf("panic: %v", p)
 		}
 	}()
+	// the searcher / fetcher of the fraction manager consult the fraction's time range first
+	// (fracmanager.List.FilterInRange -> IsIntersecting, fetcher -> Contains): a skipped fraction contributes nothing
+	if r.kind == "fetch" {
+		var ask []seq.ID
+		var slot []int
+		for i, id := range r.ids {
+			if f.Contains(id.MID) {
+				ask = append(ask, id)
+				slot = append(slot, i)
+			}
+		}
+		out := make([][]byte, len(r.ids))
+		if len(ask) > 0 {
+			dp, release := f.DataProvider(context.Background())
+			defer release()
+			docs, err := dp.Fetch(ask)
+			if err != nil {
+				return canonDocs(nil, err)
+			}
+			for k, d := range docs {
+				out[slot[k]] = d
+			}
+		}
+		return canonDocs(out, nil)
+	}
+	if !f.IsIntersecting(r.params.From, r.params.To) {
+		empty := &seq.QPR{Aggs: make([]seq.AggregatableSamples, len(r.params.AggQ))}
+		if r.params.HasHist() {
+			empty.Histogram = map[seq.MID]uint64{}
+		}
+		return canonQPR(empty, nil)
+	}
 	dp, release := f.DataProvider(context.Background())
 	defer release()
-	if r.kind == "fetch" {
-		return canonDocs(dp.Fetch(r.ids))
-	}
 	return canonQPR(dp.Search(r.params))
 }
 
@@ -698,6 +762,56 @@ func runSysCaseInProcess(c sysCase, dir string) *sysResult {
 	csB := newCacheSet(512)
 	sealedB := frac.NewSealedPreloaded(base, pre, readLimiter, csB.index, csB.docs, cfg)
 	forms = append(forms, run("preloaded", sealedB, nil))
+	// crash-leftover states of Active.Release (it removes .meta first, then .docs): a restart finds .docs next to
+	// .sdocs + .index, with or without .meta; the fraction manager's loader must bring up the same sealed fraction
+	var leftovers []formAns
+	if !c.SkipSort && len(cor.docs) <= 1000 && c.OnlyReq < 0 {
+		for _, st := range []struct {
+			name  string
+			files []string
+		}{{"restart-docs-left", []string{".docs", ".sdocs", ".index"}}, {"restart-docs-meta-left", []string{".docs", ".meta", ".sdocs", ".index"}}} {
+			d := filepath.Join(dir, st.name)
+			os.MkdirAll(d, 0o755)
+			ok := true
+			for _, suf := range st.files {
+				b, err := os.ReadFile(base + suf)
+				if err != nil || os.WriteFile(filepath.Join(d, filepath.Base(base)+suf), b, 0o644) != nil {
+					ok = false
+				}
+			}
+			if !ok {
+				res.Notes = append(res.Notes, "leftover state "+st.name+": files missing")
+				continue
+			}
+			func() {
+				defer func() {
+					if p := recover(); p != nil {
+						fa := formAns{name: st.name, ans: make([]string, len(reqs))}
+						for i := range fa.ans {
+							fa.ans[i] = fmt.Sprintf("panic: %v", p)
+						}
+						leftovers = append(leftovers, fa)
+					}
+				}()
+				fm := fracmanager.NewFracManager(&fracmanager.Config{DataDir: d, FracSize: 1 << 30, TotalSize: 1 << 40, CacheSize: 64 << 20, SortCacheSize: 8 << 20})
+				if err := fm.Load(context.Background()); err != nil {
+					panic(err)
+				}
+				fm.Start()
+				defer fm.Stop()
+				var target frac.Fraction
+				for _, f := range fm.GetAllFracs() {
+					if strings.HasSuffix(f.Info().Path, filepath.Base(base)) {
+						target = f
+					}
+				}
+				if target == nil {
+					panic("the sealed fraction was not loaded")
+				}
+				leftovers = append(leftovers, run(st.name, target, nil))
+			}()
+		}
+	}
 	for _, q := range mq {
 		impl := modelAnswerFormat(q.implActive, q.params.HistInterval > 0)
 		if b := answer(sealedB, request{kind: "search", params: q.params}); b != q.implActive {
@@ -741,7 +855,7 @@ func runSysCaseInProcess(c sysCase, dir string) *sysResult {
 		}
 		a := forms[0].ans[i]
 		hit := !strings.HasPrefix(a, "total=0 ids= ") && a != "total=0 ids=" && !strings.HasPrefix(a, "error") && !(r.kind == "fetch" && !strings.Contains(a, "{"))
-		cross := cor.crosses["ids"] || cor.crosses["lids"] || cor.crosses["tokens"] || cor.crosses["docblocks"] || c.DocBlock < 4096
+		cross := cor.crosses["dist"] || cor.crosses["ids"] || cor.crosses["lids"] || cor.crosses["tokens"] || cor.crosses["docblocks"] || c.DocBlock < 4096
 		res.Cases++
 		if hit && cross {
 			res.Nontrivial++
@@ -773,6 +887,12 @@ func runSysCaseInProcess(c sysCase, dir string) *sysResult {
 			}
 			if bad {
 				continue
+			}
+		}
+		for _, f := range leftovers {
+			if f.ans[i] != a {
+				res.Mismatches = append(res.Mismatches, sysMismatch{Req: i, Desc: r.desc, Forms: "active/" + f.name, A: trunc(a), B: trunc(f.ans[i]), Class: "restart-after-crash-in-release-differs:" + f.name})
+				break
 			}
 		}
 		for _, f := range restarted {
@@ -1119,6 +1239,8 @@ func mismatchSite(m sysMismatch) string {
 		return "frac/active_index.go:activeDataProvider.Fetch"
 	case strings.HasPrefix(m.Class, "fetch-returns-other-bytes-than-stored"):
 		return "frac/sealed_index.go:sealedDataProvider.Fetch"
+	case strings.HasPrefix(m.Class, "restart-after-crash-in-release-differs") || strings.HasPrefix(m.Class, "fetch-restart-after-crash"):
+		return "fracmanager/loader.go:load"
 	case m.Class == "replayed-active-differs" || m.Class == "replay-error":
 		return "frac/active.go:Replay"
 	case strings.Contains(m.Class, "active-changed-by-seal"):
@@ -1200,10 +1322,11 @@ func runSystemOracle(o vh.Opts, rng *vh.RNG, rep *vh.Report, tmp string) {
 	}
 	cases = append(cases, sysCase{Shape: "ids2", Seed: int64(rng.U64() >> 2), SkipSort: false, Zstd: 1, DocBlock: 4096, CacheKB: 8, OnlyReq: -1})
 	if o.Thorough() {
-		for i, sh := range []string{"docs4094", "docs4095", "docs4096", "docs4097", "docs8190", "docs12287", "ids-exact", "ids-exact1", "bigdict", "exactdict", "lids64k", "ids2", "bigdict", "manyfields", "manyfields", "hugedict", "tinybulks", "tinybulks", "tinybulks"} {
+		for i, sh := range []string{"latedocs", "latedocs", "docs4094", "docs4095", "docs4096", "docs4097", "docs8190", "docs12287", "ids-exact", "ids-exact1", "bigdict", "exactdict", "lids64k", "ids2", "bigdict", "manyfields", "manyfields", "hugedict", "tinybulks", "tinybulks", "tinybulks"} {
 			cases = append(cases, sysCase{Shape: sh, Seed: int64(rng.U64() >> 2), SkipSort: i%2 == 0, Zstd: zs[i%4], DocBlock: []int{2048, 0, 512}[i%3], CacheKB: []int{4, 16, 1}[i%3], OnlyReq: -1})
 		}
 	} else {
+		cases = append(cases, sysCase{Shape: "latedocs", Seed: int64(rng.U64() >> 2), SkipSort: false, Zstd: 1, DocBlock: 512, CacheKB: 4, OnlyReq: -1})
 		cases = append(cases, sysCase{Shape: "docs4095", Seed: int64(rng.U64() >> 2), SkipSort: true, Zstd: 1, DocBlock: 0, CacheKB: 4, OnlyReq: -1})
 		cases = append(cases, sysCase{Shape: "tinybulks", Seed: int64(rng.U64() >> 2), SkipSort: true, Zstd: 1, DocBlock: 0, CacheKB: 2, OnlyReq: -1},
 			sysCase{Shape: "tinybulks", Seed: int64(rng.U64() >> 2), SkipSort: false, Zstd: 3, DocBlock: 64, CacheKB: 1, OnlyReq: -1})
